@@ -34,6 +34,7 @@ for name in args:
     ent = {'effects': eff, 'sinks': sinks, 'closures': clo, 'guarded': gua, 'note': old.get('note', 'TODO review'), 'opaque': old.get('opaque', []), 'inlined': sorted(set(inl)),
            'exits': [{k: e[k] for k in ('cls', 'label', 'trigger', 'atoms', 'full')} for e in ex]}
     ent['order'] = list(getattr(census.compute, 'last_order', []))
+    ent['consts'] = dict(getattr(census.compute, 'last_consts', {}))
     ent['floor'] = len(ex)
     tab[name] = ent
     print('generated', name, len(ex), 'exits; inlined', len(set(inl)))
